@@ -507,6 +507,9 @@ class Sym:
         if "str" in c:
             return ("const", c["str"], c["ty"])
         if "item" in c:
+            v = self._eval_promoted("%s::{init}" % c["item"], limit=4)
+            if v is not None and v[0] == "agg" and v[1] != "array":
+                return v  # a struct / tuple / enum constant: its fields are what matters, not its name
             return ("item", c["item"], c["ty"])
         if "static" in c:
             return ("static", c["static"])
@@ -518,12 +521,12 @@ class Sym:
             return ("promoted", key, c["ty"])
         return ("const", c.get("disp"), c["ty"])
 
-    def _eval_promoted(self, key):
+    def _eval_promoted(self, key, limit=2):
         """A promoted constant whose body just builds a value (`&Variant{}`, `&"str"`, `&[..]`)."""
         if self.ix is None or key not in self.ix.bodies:
             return None
         pb = self.ix.bodies[key]
-        if len(pb.blocks) > 2 or any(blk.term["k"] == "call" for blk in pb.blocks):
+        if len(pb.blocks) > limit or any(blk.term["k"] == "call" for blk in pb.blocks):
             return None
         try:
             e = Sym(pb, self.ix, max_depth=12).local(0)
